@@ -39,15 +39,15 @@ def check_quote_wiring(ctx, inst, fn, pricing, key, reverse=False):
         inst.fail("%s:shape" % key, fn.path, fn.span, "expected one call of %s and one Asset parameter" % pricing.path)
         return None
     cb = calls[0]
-    qp = [(b, P.val_call(fn, body, b)) for b, p, fr, t in P.calls(fn) if ctx.N.is_fn(p, "query_pools")]
-    if len(qp) != 1:
-        inst.fail("%s:pools" % key, fn.path, fn.span, "expected one query_pools call, found %d" % len(qp))
+    pc = roles.pools_call(ctx, fn)
+    if pc is None:
+        inst.fail("%s:pools" % key, fn.path, fn.span, "expected one query_pools call (in the handler or in its private loader), found %d in the handler" % len([1 for b, p, fr, t in P.calls(fn) if ctx.N.is_fn(p, "query_pools")]))
         return None
-    qb, qv = qp[0]
-    QP = "C:%s@%s:bb%d" % (ctx.N.cpath("query_pools"), fn.path, qb)
-    acct = set(ctx.roots(qv[4][3]))
-    if set(ctx.roots(qv[4][0])) != {"load(%s)" % ctx.N.PAIR_INFO} or acct != {"human(load(%s).contract_addr)" % ctx.N.PAIR_INFO}:
-        inst.fail("%s:pools-origin" % key, fn.path, common.span_of_block_term(fn, qb), "quote reads reserves of %s for %s; expected the pair's own stored address" % (sorted(acct), sorted(ctx.roots(qv[4][0]))))
+    qfn, qb, qv, qR = pc
+    QP = "C:%s@%s:bb%d" % (ctx.N.cpath("query_pools"), qfn.path, qb)
+    acct = set(qR.roots(qv[4][3]))
+    if set(qR.roots(qv[4][0])) != {"load(%s)" % ctx.N.PAIR_INFO} or acct != {"human(load(%s).contract_addr)" % ctx.N.PAIR_INFO}:
+        inst.fail("%s:pools-origin" % key, qfn.path, common.span_of_block_term(qfn, qb), "quote reads reserves of %s for %s; expected the pair's own stored address" % (sorted(acct), sorted(qR.roots(qv[4][0]))))
     else:
         inst.site("%s: reserves ⊢ PAIR_INFO.query_pools(own stored address)" % fn.name)
     from .. import selection
@@ -144,8 +144,14 @@ def _run(ctx):
     # ---- reverse pricing function ------------------------------------------------------------------------
     rcalls = [(b, P.fn(p) or P.fn(generic_path(p))) for b, p, fr, t in P.calls(rev) if roles.is_workspace_fn(P, p)]
     rpf = None
+    try:
+        triple_fns = {f.path for f in ctx.N.pricing_candidates()}      # also registers named-triple returns (`OfferAmounts {..}`)
+    except AnchorMissing:
+        triple_fns = set()
     for b, g in rcalls:
         if g.sig and re.search(r"-> \(cosmwasm_std::\S*Uint128, cosmwasm_std::\S*Uint128, cosmwasm_std::\S*Uint128\)", g.sig):
+            rpf = g
+        elif g.path in triple_fns:
             rpf = g
     if rpf is None:
         n1.fail("C12.N1:anchor", rev.path, rev.span, "anchor-missing: reverse pricing function (callee of the ReverseSimulation query returning three amounts)")
